@@ -61,7 +61,7 @@ static void fatal_handler(int sig)
 // sanitizer options: classify sanitizer deaths by exit code; leaks are not this tool's subject
 extern "C" __attribute__((used)) const char* __asan_default_options() { return "exitcode=77:detect_leaks=0:abort_on_error=0:allocator_may_return_null=1:detect_stack_use_after_return=0"; }
 extern "C" __attribute__((used)) const char* __ubsan_default_options() { return "halt_on_error=1:exitcode=77:print_stacktrace=1"; }
-extern "C" __attribute__((used)) const char* __tsan_default_options() { return "halt_on_error=0:exitcode=0:report_signal_unsafe=0:history_size=4:suppress_equal_stacks=0:suppress_equal_addresses=0"; }
+extern "C" __attribute__((used)) const char* __tsan_default_options() { return "halt_on_error=0:exitcode=0:report_signal_unsafe=0:history_size=4:suppress_equal_stacks=0:suppress_equal_addresses=0:symbolize=0"; }
 // TSan report hook (tsan flavour only; the symbol is looked up weakly by the runtime)
 extern "C" __attribute__((used)) void __tsan_on_report(void*) { simrt::tsan_report_hit(); }
 // called by ASan right before it dies: tell the driver which run was fatal
